@@ -671,3 +671,163 @@ Proof.
 Qed.
 
 End Concrete.
+
+(* ================================================================ 3. the front end *)
+
+(* an outcome of the text twin that is none of the three "would crash / twin ran dry" outcomes *)
+Definition stclean {A} (r : stres A) : Prop :=
+  match r with STRunPanic | STPanic | STFuel => False | _ => True end.
+
+Lemma stclean_bind {A B} (r : stres A) (f : A -> stres B) :
+  stclean r -> (forall a, r = STOk a -> stclean (f a)) -> stclean (stbind r f).
+Proof. destruct r; cbn [stbind stclean]; auto. Qed.
+
+Lemma stclean_of_drain {A} (r : res A) : safe r -> stclean (of_drain r).
+Proof. unfold safe. destruct r; cbn; auto. Qed.
+
+Section Front.
+Variable fo : fops.
+Variable re : bytes -> bytes -> Value.res bool.
+Variable fmt_v : F fo -> string.
+
+(* Optimizer.init up to the accepted statement: the lexer twin is total by construction, the
+   parser twin never runs dry and never dereferences a missing token (StmtParserProofs), the
+   checker twin returns a statement, a SyntaxError or "outside the model" (ParseCheckProofs) *)
+Theorem front_s_clean q : stclean (front_s fo q).
+Proof.
+  unfold front_s. cbv zeta. destruct (pc_oom fo q (lex q)); [exact I|].
+  destruct (PipelineW.head_kind (lex q)); try exact I.
+  unfold parse_real. destruct (parse_with_total (real_hooks fo) (lex q)) as [(s & E)|(z & E)]; rewrite E; [|exact I].
+  destruct s as [x| | |]; try exact I.
+  destruct (to_check_s x) as [c|] eqn:Etc; [|exact I].
+  assert (Hc : cstmt_ok (fun _ => True) c) by (unfold cstmt_ok; apply Forall_forall; auto).
+  pose proof (check_stmt_ok fo (fun _ => True) c Hc) as H1.
+  destruct (Checker.check_stmt fo true c) as [c2|[p|p|]| |] eqn:E1; cbn [okr] in H1; try contradiction; try exact I.
+  cbn [of_front stbind].
+  pose proof (check_stmt_calls_ok (fun _ => True) c2 H1) as H2.
+  destruct (Checker.check_stmt_calls c2) as [u|[p|p|]| |]; cbn [okr] in H2; try contradiction; try exact I.
+  cbn [of_front stbind].
+  unfold to_check_s in Etc. destruct (negb _); [discriminate|]. injection Etc as <-.
+  apply check_stmt_select_order in E1. destruct E1 as (f2 & w2 & ->). exact I.
+Qed.
+
+(* ---- AggregatePlan.Init: Args[0] / Args[1] are read behind the NumArgs test *)
+Lemma np_afun_of nm p cargs : np (fun _ => 1 <= List.length cargs) (afun_of nm p cargs).
+Proof.
+  unfold afun_of. cbv zeta.
+  repeat match goal with
+         | |- np _ (if String.eqb ?a ?b then _ else _) => destruct (String.eqb a b)
+         end; try exact I;
+  try (destruct (Nat.eqb_spec (List.length cargs) 1) as [El|]; [cbn [np]; lia | exact I]).
+  destruct (Nat.eqb_spec (List.length cargs) 2) as [El|]; [|exact I].
+  destruct cargs as [|a [|b [|c l]]]; try discriminate El.
+  destruct (negb _); [exact I|]. destruct b; cbn [np List.length]; try exact I; lia.
+Qed.
+
+Lemma safe_aexpr_of : forall e calls0 args0, safe (aexpr_of fo e calls0 args0).
+Proof.
+  induction e; intros calls0 args0; cbn [aexpr_of]; try apply safe_oom; try apply safe_ok.
+  - (* EBin *)
+    apply safe_bind; [apply IHe1|]. intros x. apply safe_bind; [apply IHe2|]. intros y.
+    destruct (arith_of _); [apply safe_ok | apply safe_oom].
+  - (* ECall *)
+    match goal with |- safe (if Checker.is_aggr_call ?c then _ else _) =>
+      destruct (Checker.is_aggr_call c) eqn:Eagg; [|apply safe_oom] end.
+    cbn [Checker.is_aggr_call] in Eagg.
+    match goal with |- safe (match call_name ?n with _ => _ end) =>
+      destruct (call_name n) as [nm|]; [|discriminate] end.
+    match goal with |- safe (Value.bind (afun_of nm ?p ?l) _) =>
+      pose proof (np_afun_of nm p l) as Hf;
+      destruct (afun_of nm p l) as [f|er| |]; cbn [np Value.bind] in *;
+        [|apply safe_err|contradiction|apply safe_oom];
+      destruct l; [cbn in Hf; lia | apply safe_ok] end.
+Qed.
+
+Lemma safe_agg_split : forall fields keys args, safe (agg_split fo fields keys args).
+Proof.
+  induction fields as [|f fields IH]; intros keys args; cbn [agg_split]; [apply safe_ok|].
+  destruct (is_agg_field f).
+  - apply safe_bind; [apply safe_aexpr_of|]. intros x.
+    apply safe_bind; [apply IH|]. intros; apply safe_ok.
+  - apply safe_bind; [apply IH|]. intros; apply safe_ok.
+Qed.
+
+Lemma stclean_of_init {A} (r : res A) : safe r -> stclean (of_init r).
+Proof. unfold safe. destruct r as [a|[]| |]; cbn; auto. Qed.
+
+Lemma plan_of_front_clean x fields w : stclean (plan_of_front fo re fmt_v x fields w).
+Proof.
+  unfold plan_of_front. destruct (PipelineW.limit_of _); [|exact I]. destruct (_ || _); [exact I|]. cbv zeta.
+  destruct (plan_select _ _); try exact I.
+  apply stclean_bind; [apply stclean_of_init; apply safe_agg_split|]. intros; exact I.
+Qed.
+
+(* NewOptimizer(q).BuildPlan(store) *)
+Theorem plan_stmt_text_clean q : stclean (plan_stmt_text fo re fmt_v q).
+Proof.
+  unfold plan_stmt_text. apply stclean_bind; [apply front_s_clean|]. intros; apply plan_of_front_clean.
+Qed.
+
+End Front.
+
+(* ================================================================ 4. from the text *)
+From KV Require Proofs.PipelineProofs Model.AggErrPos Proofs.ExecPosProofs Proofs.ExecPosStmtProofs.
+
+Section Text.
+Variable fo : fops.
+Variable re : bytes -> bytes -> Value.res bool.
+Hypothesis re_safe : forall p t, safe (re p t).
+Variable fmt_v : F fo -> string.
+Variable ag : aggops fo.
+Variable pi pf : bytes -> option Z.
+
+Notation mode_ok := PipelineProofs.mode_ok.
+
+Lemma safe_run_mode m c sh sl : mode_ok m -> safe (run_mode fo re ag pi pf m c sh sl).
+Proof.
+  intros Hm. destruct m as [|B]; cbn [run_mode];
+    [apply safe_select_shape_row | apply safe_select_shape_batch]; assumption.
+Qed.
+
+(* THE THEOREM.  Every byte string q, every store (sorted or not), row mode and batch mode at
+   every PlanBatchSize >= 1: NewOptimizer(q).BuildPlan(store) followed by Next until nil /
+   Batch until the empty batch ends as rows, a SyntaxError of BuildPlan, another error of
+   BuildPlan, an error of the drain, or the explicit model boundary -- never as a nil
+   dereference of the front end (STPanic), never with the twin's front-end fuel exhausted
+   (STFuel), never as a panic of the drain (STRunPanic: heap.Pop on an empty heap, an index out
+   of range in a column, a verdict list or a key list) *)
+Theorem select_stmt_text_st_never_panics q d m : mode_ok m ->
+  stclean (select_stmt_text_st fo re fmt_v ag pi pf q d m).
+Proof.
+  intros Hm. unfold select_stmt_text_st. apply stclean_bind; [apply plan_stmt_text_clean|].
+  intros pl _. apply stclean_of_drain. unfold drain_planned. apply safe_run_mode. exact Hm.
+Qed.
+
+(* ... in Model/Pipeline.v's vocabulary: never TPanic, never TFuel, never the EPanic class *)
+Definition tclean {A} (r : tres A) : Prop :=
+  match r with TPanic | TFuel | TRunErr Storage.EPanic => False | _ => True end.
+
+Lemma verr_class_not_panic e : verr_class e <> Storage.EPanic.
+Proof. destruct e; discriminate. Qed.
+
+Lemma to_tres_clean {A} (r : stres A) : stclean r -> tclean (to_tres r).
+Proof.
+  destruct r as [a|p|e|e| | | |]; cbn [stclean to_tres tclean]; auto.
+  - destruct e as [p|p|]; cbn [tclean verr_class]; exact (fun _ => I).
+  - intros _. pose proof (verr_class_not_panic e). destruct (verr_class e); auto.
+Qed.
+
+Theorem select_stmt_text_never_panics q d m : mode_ok m ->
+  tclean (select_stmt_text fo re fmt_v ag pi pf q d m).
+Proof. intros Hm. apply to_tres_clean. apply select_stmt_text_st_never_panics. exact Hm. Qed.
+
+(* the same for the twin that keeps class and position of the errors raised while a group's
+   row is completed (Model/AggErrPos.v) *)
+Theorem select_stmt_text_stp_never_panics q d m : mode_ok m ->
+  stclean (AggErrPos.select_stmt_text_stp fo re fmt_v ag pi pf q d m).
+Proof.
+  intros Hm. pose proof (select_stmt_text_st_never_panics q d m Hm) as H.
+  destruct (ExecPosStmtProofs.stp_refines_st fo re fmt_v ag pi pf q d m) as [->|(_ & e & _ & ->)]; [exact H | exact I].
+Qed.
+
+End Text.
